@@ -479,3 +479,21 @@ Definition lost_op (sn j : Z) (o : op) : Prop :=
   | OForged _ _ _ _ => False
   | _ => True
   end.
+
+(* samples of at most 256 fragments (the span of one NACK_FRAG bitmap) *)
+Definition small_op (f : Z) (o : op) : Prop :=
+  match o with
+  | OWrite p => div_ceil (blen p) f <= 256
+  | _ => True
+  end.
+
+(* the byte-identity oracle on plain bytes (FragCorr.identical_from is the same walk over the
+   harness' (bytes | digest) observations) *)
+Fixpoint identicalb (ws : list bytes) (prev : Z) (ch : list (Z * bytes)) : bool :=
+  match ch with
+  | [] => true
+  | (sn, d) :: t =>
+      (prev <? sn) &&
+      (match nth_written ws sn with Some p => bytes_eqb p d | None => false end) &&
+      identicalb ws sn t
+  end.
